@@ -111,6 +111,12 @@ def main():
     os.makedirs(BUILD, exist_ok=True)
     os.makedirs(os.path.join(VERIF, "evidence"), exist_ok=True)
     os.makedirs(os.path.join(VERIF, "replays", pid), exist_ok=True)
+    import glob
+    for old in glob.glob(os.path.join(VERIF, "replays", pid, "%s_%s_%d_*" % (pid, tier, seed))):
+        try:
+            os.remove(old)
+        except OSError:
+            pass
     lock = open(os.path.join(BUILD, "lock"), "w")
     fcntl.flock(lock, fcntl.LOCK_EX)
 
